@@ -761,7 +761,7 @@ func (r *Reconciler) reconcileApply(ctx context.Context, proposal *configapi.Pro
 			config.Status.Applied.Values = make(map[string]*configapi.PathValue)
 		}
 		for path, changeValue := range updatedChangeValues {
-			config.Status.Applied.Values[path] = changeValue
+			_, _ = applyChangeToConfig(config.Status.Applied.Values, path, changeValue)
 		}
 
 		if err := r.configurations.UpdateStatus(ctx, config); err != nil {
